@@ -139,7 +139,8 @@ Proof.
   destruct (negb (x_init s) && (x_hs s =? 0) && (n =? 0)) eqn:C1.
   { apply andb_prop in C1 as [C1 _]. apply andb_prop in C1 as [Ci Ch].
     apply Bool.negb_true_iff in Ci. apply N.eqb_eq in Ch.
-    destruct w as [e ts kc sg| | |]; try (injection H as <- <-; constructor).
+    destruct w as [e ts kc sg| |h0 c0|]; try (injection H as <- <-; constructor);
+      [|destruct (short_junk c0); injection H as <- <-; constructor].
     unfold read_init_hello in H. destruct (negb (x_noise s =? 0)); [injection H as <- <-; constructor|].
     destruct (verify_claim P_TS kc sg ts) as [k|] eqn:Ev; [|injection H as <- <-; constructor].
     destruct (verify_claim_some _ _ _ _ _ Ev) as [-> ->]. injection H as <- <-.
